@@ -134,6 +134,14 @@ def running_offset_idiom(fn_node):
         else:
             width = end_defs[0].value.right if isinstance(end_defs[0].value.left, ast.Name) and end_defs[0].value.left.id == a.id else end_defs[0].value.left
             tnames = {n.id for n in ast.walk(loop.target) if isinstance(n, ast.Name)}
+            changed = True
+            while changed:  # locals of the body derived from the current element
+                changed = False
+                for s2 in body:
+                    if isinstance(s2, ast.Assign) and isinstance(s2.targets[0], ast.Name) and s2.targets[0].id not in tnames \
+                            and tnames & {n.id for n in ast.walk(s2.value) if isinstance(n, ast.Name)} and s2.targets[0].id not in (a.id, b.id):
+                        tnames.add(s2.targets[0].id)
+                        changed = True
             if not (tnames & {n.id for n in ast.walk(width) if isinstance(n, ast.Name)}):
                 ok = False
                 why.append(f"width `{norm_text(width)}` is not taken from the current element")
